@@ -68,6 +68,23 @@ impl Gate {
     }
 }
 
+/// User code inside `on_close`: when layer 2 is told that the span with token `.1` closes on thread `.0`, it runs `.2`
+/// (which gives up the last handle of another span - that span's whole close then runs nested inside this one).
+type NestedJob = Box<dyn FnOnce() + Send>;
+static NESTED: Mutex<Option<(u64, i64, NestedJob)>> = Mutex::new(None);
+fn run_nested_if_armed(tok: i64) {
+    let job = {
+        let mut g = NESTED.lock().unwrap();
+        match g.as_ref() {
+            Some((t, k, _)) if *t == vh_common::rec::vt() && *k == tok => g.take().map(|x| x.2),
+            _ => None,
+        }
+    };
+    if let Some(j) = job {
+        j();
+    }
+}
+
 /// leaf -> root by repeated `parent()` (must agree with `scope()`)
 fn walk_up<'a, const L: u8, C: LookupSpan<'a>>(s: tracing_subscriber::registry::SpanRef<'a, C>) -> Vec<i64> {
     let mut v = vec![tok_of::<L, C>(&s)];
@@ -127,7 +144,11 @@ where
             }
             None => json!({"vt": vt, "reg": self.reg, "layer": L, "call": "close", "tok": -1, "id": id.into_u64(), "readable": false, "scope": [], "pw": []}),
         };
+        let tok = rec["tok"].as_i64().unwrap_or(-1);
         self.log.lock().unwrap().push(rec);
+        if L == 2 {
+            run_nested_if_armed(tok);
+        }
     }
     fn on_event(&self, e: &Event<'_>, ctx: Context<'_, C>) {
         let chain: Vec<i64> = ctx.event_scope(e).map(|sc| sc.map(|a| tok_of::<L, C>(&a)).collect()).unwrap_or_default();
@@ -308,7 +329,9 @@ fn child() {
     let mut idmap: HashMap<u64, u64> = HashMap::new();
     // a `drop` parked inside layer 2's on_close: (thread, its step record, result channel, layer calls of that thread so far)
     let mut held: Option<(u64, Value, std::sync::mpsc::Receiver<Result<Value, String>>, Vec<Value>)> = None;
-    for step in beh["steps"].as_array().unwrap() {
+    let mut queue: std::collections::VecDeque<Value> = beh["steps"].as_array().unwrap().iter().cloned().collect();
+    while let Some(step) = queue.pop_front() {
+        let step = &step;
         let mut o = step.clone();
         o["ev"] = json!("op");
         o["plf"] = json!(plf);
@@ -395,7 +418,17 @@ fn child() {
                     }
                     json!(0)
                 };
-                if step["hold"].as_bool().unwrap_or(false) && held.is_none() {
+                // `then`: user code inside layer 2's on_close for this span drops the last handle of span `then`
+                let then = step["then"].as_u64();
+                if let Some(y) = then {
+                    let sh3 = sh.clone();
+                    let nested: NestedJob = Box::new(move || {
+                        let h = sh3.spans.lock().unwrap().get_mut(&y).and_then(|v| v.pop());
+                        drop(h);
+                    });
+                    *NESTED.lock().unwrap() = Some((t, s as i64, nested));
+                }
+                if step["hold"].as_bool().unwrap_or(false) && held.is_none() && then.is_none() {
                     GATE.arm(t);
                     let rx = ws.spawn(t, job);
                     loop {
@@ -506,6 +539,18 @@ fn child() {
         };
         if held.is_some() && res.as_ref().ok() == Some(&json!("parked")) {
             continue; // reported at its `release`
+        }
+        if op == "drop" {
+            if let Some(y) = step["then"].as_u64() {
+                if NESTED.lock().unwrap().take().is_some() {
+                    // the span did not close, so the user code did not run: the other handle is given up right afterwards
+                    queue.push_front(json!({"op": "drop", "t": t, "s": y}));
+                } else {
+                    op = "drop2".to_string();
+                    o["op"] = json!("drop2");
+                    o["y"] = json!(y);
+                }
+            }
         }
         let mut calls = pre_calls;
         let fresh = drain(&log);
